@@ -553,6 +553,10 @@ func (e *evaluator) eval1(v ssa.Value) *term {
 					}
 					return ON("idx", "", S(e.pathOrTerm(sl.X)), O("add", lo, e.eval(ia.Index)))
 				}
+				// indexing a value bound to a term (a helper's result expanded by E11): look through a reslice
+				if bt, ok := e.env[ia.X]; ok && bt.op == "slice" {
+					return idxOf(bt, e.eval(ia.Index))
+				}
 				return ON("idx", "", S(e.path(ia.X)), e.eval(ia.Index))
 			}
 			return S(e.path(x.X))
